@@ -6,6 +6,8 @@ package main
 
 import (
 	"encoding/binary"
+	"encoding/json"
+	"strconv"
 	"fmt"
 	"os"
 	"runtime"
@@ -832,6 +834,136 @@ func shuffle(r *vlib.Rand, l []*seg.PathSegment) {
 	}
 }
 
+// parseOp rebuilds the segment sets from the abstract form of an op line (`comb all <src> <dst> ...`),
+// so that a recorded failing input can be re-executed alone (-replay).
+func parseOp(op string) (*caseT, error) {
+	w := strings.Fields(op)
+	pos := 0
+	next := func() (uint64, error) {
+		if pos >= len(w) {
+			return 0, fmt.Errorf("op too short")
+		}
+		v, err := strconv.ParseUint(w[pos], 10, 64)
+		pos++
+		return v, err
+	}
+	expect := func(t string) error {
+		if pos >= len(w) || w[pos] != t {
+			return fmt.Errorf("expected %s at word %d", t, pos)
+		}
+		pos++
+		return nil
+	}
+	if len(w) < 2 {
+		return nil, fmt.Errorf("empty op")
+	}
+	pos = 2 // "comb all"
+	var hdr [5]uint64
+	for i := range hdr {
+		v, err := next()
+		if err != nil {
+			return nil, err
+		}
+		hdr[i] = v
+	}
+	mac := func(v uint64) (m [path.MacLen]byte) {
+		var b [8]byte
+		binary.BigEndian.PutUint64(b[:], v)
+		copy(m[:], b[2:])
+		return
+	}
+	nums := func(n int) ([]uint64, error) {
+		out := make([]uint64, n)
+		for i := range out {
+			v, err := next()
+			if err != nil {
+				return nil, err
+			}
+			out[i] = v
+		}
+		return out, nil
+	}
+	segs := func(n uint64) ([]*seg.PathSegment, error) {
+		var out []*seg.PathSegment
+		for ; n > 0; n-- {
+			if err := expect("S"); err != nil {
+				return nil, err
+			}
+			h, err := nums(3)
+			if err != nil {
+				return nil, err
+			}
+			s, err := seg.CreateSegment(time.Unix(int64(h[0]), 0), uint16(h[1]))
+			if err != nil {
+				return nil, err
+			}
+			for k := uint64(0); k < h[2]; k++ {
+				if err := expect("E"); err != nil {
+					return nil, err
+				}
+				f, err := nums(8)
+				if err != nil {
+					return nil, err
+				}
+				e := seg.ASEntry{Local: addr.IA(f[0]), MTU: int(f[6]), HopEntry: seg.HopEntry{IngressMTU: int(f[5]),
+					HopField: seg.HopField{ConsIngress: uint16(f[1]), ConsEgress: uint16(f[2]), ExpTime: uint8(f[3]), MAC: mac(f[4])}}}
+				for j := uint64(0); j < f[7]; j++ {
+					if err := expect("P"); err != nil {
+						return nil, err
+					}
+					q, err := nums(7)
+					if err != nil {
+						return nil, err
+					}
+					e.PeerEntries = append(e.PeerEntries, seg.PeerEntry{Peer: addr.IA(q[4]), PeerInterface: uint16(q[5]),
+						PeerMTU: int(q[6]), HopField: seg.HopField{ConsIngress: uint16(q[0]), ConsEgress: uint16(q[1]),
+							ExpTime: uint8(q[2]), MAC: mac(q[3])}})
+				}
+				s.ASEntries = append(s.ASEntries, e)
+			}
+			for k := 0; k+1 < len(s.ASEntries); k++ {
+				s.ASEntries[k].Next = s.ASEntries[k+1].Local
+			}
+			out = append(out, s)
+		}
+		return out, nil
+	}
+	c := &caseT{in: input{src: addr.IA(hdr[0]), dst: addr.IA(hdr[1])}}
+	var err error
+	if c.in.ups, err = segs(hdr[2]); err != nil {
+		return nil, err
+	}
+	if c.in.cores, err = segs(hdr[3]); err != nil {
+		return nil, err
+	}
+	if c.in.downs, err = segs(hdr[4]); err != nil {
+		return nil, err
+	}
+	return c, nil
+}
+
+// replayOp extracts the recorded op from a replay file written by ../check (or a bare op line).
+func replayOp(file string) string {
+	b, err := os.ReadFile(file)
+	if err != nil {
+		return ""
+	}
+	var doc struct {
+		FailingInput *struct {
+			Replay struct {
+				Op string `json:"op"`
+			} `json:"replay"`
+		} `json:"failing_input"`
+	}
+	if json.Unmarshal(b, &doc) == nil && doc.FailingInput != nil {
+		return doc.FailingInput.Replay.Op
+	}
+	if strings.HasPrefix(string(b), "comb ") {
+		return strings.TrimSpace(string(b))
+	}
+	return ""
+}
+
 func main() {
 	e := vlib.Init()
 	e.Rule = "random topologies (1-2 ISDs, 1-4 cores with parallel core links, up to 3 levels of multi-parent " +
@@ -842,7 +974,19 @@ func main() {
 		"segments not touching src/dst; each case is run with findAllIdentical true and false. Non-trivial = at least " +
 		"one path returned; distinct by op line"
 	go watchdog(e)
-	nTopo := e.N(1300, 22000)
+	if e.Replay != "" {
+		if op := replayOp(e.Replay); op != "" {
+			c, err := parseOp(op)
+			if err != nil {
+				panic("replay: " + err.Error())
+			}
+			e.Rule = "replay of one recorded case"
+			runCase(e, c)
+			e.Finish()
+			return
+		}
+	}
+	nTopo := e.N(2000, 12000)
 	casesPer := 6
 	base := int64(1700000000)
 	shapes := map[string]int{}
@@ -1122,38 +1266,43 @@ func runCase(e *vlib.Env, c *caseT) {
 	if !ok1 || !ok2 {
 		e.Op(opAll, ansAll+" "+ansUniq, pre("panic"))
 	} else if e.Prop == "C29" {
+		var sb strings.Builder
+		sb.WriteString("c29" + opAll[8:])
 		for _, m := range []struct {
-			mode string
+			mark string
 			ps   []combinator.Path
-		}{{"all", c.all}, {"uniq", c.uniq}} {
-			var sb strings.Builder
-			sb.WriteString("c29" + opLine(m.mode, in.src, in.dst, in.ups, in.cores, in.downs)[4:])
-			fmt.Fprintf(&sb, " R %d", len(m.ps))
+		}{{"R", c.all}, {"U", c.uniq}} {
+			fmt.Fprintf(&sb, " %s %d", m.mark, len(m.ps))
 			for _, p := range m.ps {
 				sb.WriteString(" F" + ifsText(p))
 			}
-			e.Op(sb.String(), "missing", pre(m.mode))
 		}
+		e.Op(sb.String(), "missing || missing", pre("c29"))
 	} else {
+		var sb strings.Builder
+		sb.WriteString("c28" + opAll[8:])
+		var ans []string
 		for _, m := range []struct {
-			mode string
+			mark string
 			ps   []combinator.Path
-		}{{"all", c.all}, {"uniq", c.uniq}} {
-			var sb strings.Builder
-			sb.WriteString("c28" + opLine(m.mode, in.src, in.dst, in.ups, in.cores, in.downs)[4:])
-			fmt.Fprintf(&sb, " R %d", len(m.ps))
+		}{{"R", c.all}, {"U", c.uniq}} {
+			fmt.Fprintf(&sb, " %s %d", m.mark, len(m.ps))
 			var ws, lines []string
 			for _, p := range m.ps {
 				l := renderUniq(p)
-				if m.mode == "all" {
+				if m.mark == "R" {
 					l = renderFull(p)
 				}
 				sb.WriteString(" " + l)
 				lines = append(lines, l)
 				ws = append(ws, fmt.Sprint(p.Weight))
 			}
-			e.Op(sb.String(), "w "+strings.Join(ws, ",")+" | "+strings.Join(lines, " | "), pre(m.mode))
+			if m.mark == "U" {
+				sort.Strings(lines) // the two Combine calls order equal-key solutions independently
+			}
+			ans = append(ans, "w "+strings.Join(ws, ",")+" | "+strings.Join(lines, " | "))
 		}
+		e.Op(sb.String(), strings.Join(ans, " || "), pre("c28"))
 	}
 	e.Sample(map[string]any{"src": in.src.String(), "dst": in.dst.String(), "ups": len(in.ups), "cores": len(in.cores),
 		"downs": len(in.downs), "paths_all": len(c.all), "paths_uniq": len(c.uniq), "shape": c.shape})
